@@ -109,6 +109,17 @@ def UniformIn (P : List Ty → Bool) (v : Val) : Prop := uniformP P v = true
 instance (v : Val) : Decidable (Uniform v) := inferInstanceAs (Decidable (uniform v = true))
 instance (P : List Ty → Bool) (v : Val) : Decidable (UniformIn P v) := inferInstanceAs (Decidable (uniformP P v = true))
 
+/-- Canonical minors: the implementation's `Type` carries a non-zero minor only for object types (module id) and tuple
+types (structure hash) — every constructor of `bloc::Type` for another major leaves it 0. A `Val` of the model can be
+written with any minor; the value-refinement theorems (Proofs/C09.lean `*_refines`) assume the values are in the image
+of the implementation: the value's own type and the types of the elements of a table are canonical. -/
+def canonTy (t : Ty) : Bool := t.minor == normMinor t
+
+def canon (v : Val) : Bool :=
+  canonTy v.type && (match v with
+    | .tab _ _ es => es.all (fun e => canonTy e.type)
+    | _ => true)
+
 inductive SErr | index | type | range | any
   deriving DecidableEq, Repr
 
@@ -391,5 +402,18 @@ def specTab (args : List Val) : Option SOut :=
       else let r := Val.tab t.levelUp [] es; some (.ok r r)
     | v => let r := Val.tab v.type.levelUp [] es; some (.ok r r)
   | _ => none
+
+/-! ### tup(x, …) -/
+
+/-- `tup(x1, …, xn)`, n ≥ 1. The manual (tup): "Item can be boolean, integer, decimal, complex, string, object, or bytes.
+Nesting and table are not allowed"; (types): "Element can be null, but they must be typed". So: a tuple of exactly the given
+items for scalar items (typed nulls of scalar types included), a refusal — compile time or run time — for an untyped null,
+a table, a tuple, a null table, a null tuple. -/
+def specTup (args : List Val) : Option SOut :=
+  if args.isEmpty then none
+  else if args.all scalarVal then
+    let r := Val.tup (args.map Val.type) args
+    some (.ok r r)
+  else some (.reject .any)
 
 end BlocV.Spec
